@@ -1,4 +1,5 @@
 import OpusModel.Framing
+import OpusModel.FramingTrace
 import Driver.Util
 /- Suite `framing`: opus_packet_parse_impl, TOC helpers, encode_size. -/
 namespace Driver.SuiteFraming
@@ -18,7 +19,9 @@ def resNat (r : Res Nat) : String := resStr toString r
 def handle : List String → String
   | ["parse", sd, len, hex] =>
     match parseNat sd, parseInt len, parseHex hex with
-    | some sd, some len, some bs => resStr parsedStr (parseImplLen (sd != 0) bs len)
+    -- evaluated through the INSTRUMENTED parser (its first component is proved equal to `parseImplLen`,
+    -- OpusProofs.FramingTraceEq.parseImplLenT_fst): the function whose logs the range theorems speak about is the one tied to C
+    | some sd, some len, some bs => resStr parsedStr (parseImplLenT (sd != 0) bs len).1
     | _, _, _ => "bad-op"
   | ["helpers", hex, fs] =>
     match parseHex hex, parseNat fs with
